@@ -15,6 +15,9 @@ LEDGER_ASSUME = [
 
 
 def describe(group, case):
+    if case.get("kind") == "init":
+        return "history %s op 0: node start-up (Visor.Init on an empty db); attempts with other genesis signatures: %s" % (
+            case.get("hist"), case.get("start_attempts"))
     return "history %s op %s: %s block (re-signed=%s, seq %s on head %s) -> %s" % (
         case.get("hist"), case.get("op"), case.get("kind"), case.get("resigned"), case.get("block_seq"),
         case.get("head_seq_before"), case.get("result") or "accepted")
